@@ -837,6 +837,25 @@ pub fn near_variant(rng: &mut Rng, base: &Config, kind: &str, al: &Alphabet) -> 
     }
 }
 
+/// For `add_patterns`-style configurations: join two adjacent patterns into one with a separator
+/// character (a raw line feed, '|', ',' ...). The results are different pattern *lists* whose
+/// concatenations coincide — anything that keys a cache by a joined string confuses them.
+pub fn merge_simple_variant(rng: &mut Rng, cfg: &Config) -> Option<Config> {
+    if !is_simple(cfg) || cfg[0].patterns.len() < 2 {
+        return None;
+    }
+    let sep = *rng.pick(&["\n", "|", ",", " ", ";", "\t", "\u{1f}", "\u{0}", "\n"]);
+    let i = rng.below(cfg[0].patterns.len() - 1);
+    let mut pats: Vec<String> = cfg[0].patterns.iter().map(|p| p.pattern.clone()).collect();
+    let b = pats.remove(i + 1);
+    pats[i] = format!("{}{}{}", pats[i], sep, b);
+    Some(vec![ModeSpec {
+        name: "INITIAL".to_string(),
+        patterns: pats.into_iter().enumerate().map(|(i, p)| PatternSpec { pattern: p, token_type: i, lookahead: None }).collect(),
+        transitions: vec![],
+    }])
+}
+
 pub const FAIL_KINDS: &[&str] = &["syntax", "unsupported", "bad_lookahead", "unknown_class_late"];
 
 /// Returns a configuration derived from `base` that must fail to build.
